@@ -321,7 +321,7 @@ func main() {
 	}
 	m := &marshal.GogoProtoMarshalizer{}
 
-	perType := r.N(700, 20000)
+	perType := r.N(700, 50000)
 	r.Parallel(len(types)*perType, func(c *vk.Case) {
 		proto := types[c.Idx%len(types)]
 		rt := reflect.TypeOf(proto).Elem()
